@@ -567,7 +567,8 @@ def run_refusals(ctx: Ctx, wd) -> None:
     roots = {"RootBQ": [{"t": "Sum", "s": "Unit", "size": 2}, {"t": "Q"}]}
     # (root, K, depth, ops, features, MaxArgs, SampleK)
     cfgs = ([("RootBQ", 4, 2, ("Not",), ("nested", "refuse"), 2, 1), ("RootBQ", 5, 2, ("Not",), ("cond", "if", "refuse"), 2, 5),
-             ("RootBQ", 4, 2, ("Not",), ("func", "refuse"), 2, 1), ("RootBQ", 6, 2, ("Some",), ("cfg", "refuse"), 1, 4)] if quick else
+             ("RootBQ", 4, 2, ("Not",), ("func", "refuse"), 2, 1), ("RootBQ", 6, 2, ("Some",), ("cfg", "refuse"), 1, 4),
+             ("RootBQ", 4, 3, ("Not",), ("func", "nested", "refuse"), 1, 2)] if quick else
             [("RootBQ", 4, 2, ("Not", "H"), ("nested", "load", "refuse"), 2, 1), ("RootBQ", 5, 2, ("Not",), ("cond", "if", "refuse"), 2, 1),
              ("RootBQ", 5, 2, ("Not",), ("func", "refuse"), 2, 1), ("RootBQ", 6, 2, ("Some",), ("cfg", "refuse"), 2, 8),
              ("RootBQ", 5, 2, ("Not",), ("cfg", "func", "refuse"), 2, 2), ("RootBQ", 5, 2, (), ("cfg", "unit", "refuse"), 2, 1),
